@@ -46,7 +46,7 @@ func hC10Base() map[string]vr.File {
 	f := hBase()
 	f["routes.txt"] = vr.File{Name: "routes.txt", Header: []string{"route_id", "agency_id", "route_type"}, Rows: [][]string{{"r1", "ag", "1"}, {"r2", "ag", "3"}}}
 	f["trips.txt"] = vr.File{Name: "trips.txt", Header: []string{"route_id", "service_id", "trip_id"}, Rows: [][]string{{"r1", "sv1", "t1"}, {"r2", "sv1", "t2"}}}
-	f["transfers.txt"] = vr.File{Name: "transfers.txt", Header: []string{"from_stop_id", "to_stop_id"}, Rows: [][]string{{"s1", "s2"}, {"s2", "s1"}}}
+	f["transfers.txt"] = vr.File{Name: "transfers.txt", Header: []string{"from_stop_id", "to_stop_id", "min_transfer_time"}, Rows: [][]string{{"s1", "s2", "120"}, {"s2", "s1", ""}}}
 	f["frequencies.txt"] = vr.File{Name: "frequencies.txt", Header: []string{"trip_id", "start_time", "end_time", "headway_secs"}, Rows: [][]string{{"t1", "06:00:00", "07:00:00", "600"}, {"t1", "07:00:00", "08:00:00", "300"}}}
 	f["stop_times.txt"] = vr.File{Name: "stop_times.txt", Header: []string{"trip_id", "arrival_time", "departure_time", "stop_id", "stop_sequence"}, Rows: [][]string{{"t1", "08:00:00", "08:00:30", "s1", "1"}, {"t1", "08:10:00", "08:10:30", "s2", "2"}}}
 	return f
